@@ -3,6 +3,7 @@ package main
 import (
 	"encoding/json"
 	"fmt"
+	"regexp"
 	"strings"
 
 	mxj "github.com/clbanning/mxj/v2"
@@ -36,7 +37,18 @@ func init() {
 	}})
 }
 
+var gtBlankLt = regexp.MustCompile(">[\\n\\t\\r ]+<")
+
 func c04Shape(doc *XElem) string {
+	// a comment, PI, directive or CDATA section whose text contains '>' blanks '<': the byte-level
+	// formatter of NewMapFormattedXmlSeq cannot tell it from inter-element white space
+	for _, e := range doc.elems() {
+		for _, it := range e.Items {
+			if (it.Kind != 'e' && it.Kind != 't' || it.Kind == 't' && it.CData) && gtBlankLt.MatchString(it.Text) {
+				return "gt-blanks-lt-inside-comment-or-cdata"
+			}
+		}
+	}
 	var f []string
 	mixed, misc, ns, rep := false, false, false, false
 	for _, e := range doc.elems() {
@@ -184,6 +196,11 @@ func c04Decos(base *XElem, thorough bool) []Deco {
 		ds = append(ds, Deco{Kind: 't', El: i, Pos: 0, Value: "x<y", CData: true})
 		for pos := 0; pos <= nk; pos++ {
 			ds = append(ds, Deco{Kind: 'c', El: i, Pos: pos, Value: " note "})
+			if pos == 0 {
+				// commented-out markup: "> <" inside a comment is not inter-element white space
+				ds = append(ds, Deco{Kind: 'c', El: i, Pos: pos, Value: " <o>1</o> <o>2</o> "})
+				ds = append(ds, Deco{Kind: 't', El: i, Pos: 0, Value: "x> <y", CData: true})
+			}
 			ds = append(ds, Deco{Kind: 'p', El: i, Pos: pos, Value: "do=\"it\""})
 			ds = append(ds, Deco{Kind: 'd', El: i, Pos: pos, Value: "ENTITY e \"v\""})
 		}
